@@ -1,4 +1,4 @@
-import Proofs.E2EToken
+import Proofs.E2ELex
 /-!
 # The tokenizer on the spelling of a clean template: `scanWith (tokenRe d) d (spell d items) = tokensOf d items`
 -/
@@ -237,43 +237,38 @@ theorem tokensOfMatch_tag (d : Delims) (hg : GoodDelims d) (name args : Bytes) (
 
 /-! ## The FindAll loop -/
 
-theorem search_at (mf : Nat) (re : Re) (e : Nat) (c : Caps) : ∀ (n : Nat) (s : Bytes) (p sk : Nat), n < s.length →
-    (∀ i, i < n → re.matchAt mf (s.drop i) (p + i) = none) → re.matchAt mf (s.drop n) (p + n) = some (e, c) →
-    re.search mf s p sk = some (sk + n, e, c) := by
-  intro n
-  induction n with
-  | zero =>
-    intro s p sk hlt _ hm
-    cases s with
-    | nil => simp at hlt
-    | cons x xs =>
-      simp only [List.drop_zero, Nat.add_zero] at hm
-      simp only [Re.search, hm, Nat.add_zero]
-  | succ n ih =>
-    intro s p sk hlt hnone hm
-    cases s with
-    | nil => simp at hlt
-    | cons x xs =>
-      have h0 := hnone 0 (Nat.succ_pos n)
-      simp only [List.drop_zero, Nat.add_zero] at h0
-      simp only [Re.search, h0]
-      have := ih xs (p + 1) (sk + 1) (by simpa using hlt)
-        (fun i hi => by have := hnone (i + 1) (by omega); simpa [Nat.add_assoc, Nat.add_comm 1] using this)
-        (by simpa [Nat.add_assoc, Nat.add_comm 1] using hm)
-      rw [this]
-      congr 2; omega
+theorem tagNameOfMatch_obj (d : Delims) (args : Bytes) (hl hr : Bool) (wl wr : Bytes) (p : Nat) (caps : Caps) :
+    tagNameOfMatch d ((Item.obj args hl hr wl wr).spell d) p caps = none := by
+  have hpre : isPrefixOfB d.ol ((Item.obj args hl hr wl wr).spell d) = true := (isPrefixOfB_iff _ _).mpr ⟨_, rfl⟩
+  simp only [tagNameOfMatch, hpre, if_true]
 
-theorem search_none_of (mf : Nat) (re : Re) : ∀ (s : Bytes) (p sk : Nat),
-    (∀ i, i < s.length → re.matchAt mf (s.drop i) (p + i) = none) → re.search mf s p sk = none
-  | [], _, _, _ => rfl
-  | x :: xs, p, sk, h => by
-    have h0 := h 0 (by simp)
-    simp only [List.drop_zero, Nat.add_zero] at h0
-    simp only [Re.search, h0]
-    exact search_none_of mf re xs (p + 1) (sk + 1)
-      (fun i hi => by have := h (i + 1) (by simpa using hi); simpa [Nat.add_assoc, Nat.add_comm 1] using this)
+theorem tagNameOfMatch_tag (d : Delims) (hg : GoodDelims d) (name args : Bytes) (hl hr : Bool) (wl wm wr : Bytes) (p : Nat) :
+    tagNameOfMatch d ((Item.tag name args hl hr wl wm wr).spell d) p
+      (tagCaps (p + (d.tl.length + ((hyB hl).length + wl.length))) name args wm) = some name := by
+  have hpre0 : isPrefixOfB d.ol ((Item.tag name args hl hr wl wm wr).spell d) = false := by
+    cases h : isPrefixOfB d.ol ((Item.tag name args hl hr wl wm wr).spell d) with
+    | false => rfl
+    | true => exact absurd ((isPrefixOfB_iff _ _).mp h) (ol_not_prefix_tag d hg _)
+  have hpre : isPrefixOfB d.tl ((Item.tag name args hl hr wl wm wr).spell d) = true :=
+    (isPrefixOfB_iff _ _).mpr ⟨_, rfl⟩
+  have hname : subAt ((Item.tag name args hl hr wl wm wr).spell d) p (p + (d.tl.length + ((hyB hl).length + wl.length)))
+      (p + (d.tl.length + ((hyB hl).length + wl.length)) + name.length) = name := by
+    have e : (Item.tag name args hl hr wl wm wr).spell d =
+        (d.tl ++ (hyB hl ++ wl)) ++ (name ++ (tagArgPart args wm ++ (wr ++ (hyB hr ++ d.tr)))) := by
+      simp [Item.spell, List.append_assoc]
+    have := subAt_mid (d.tl ++ (hyB hl ++ wl)) name (tagArgPart args wm ++ (wr ++ (hyB hr ++ d.tr))) p
+    simp only [List.length_append] at this
+    rw [e]; exact this
+  unfold tagNameOfMatch
+  rw [if_neg (by rw [hpre0]; simp), if_pos hpre]
+  by_cases hane : args = []
+  · subst hane
+    simp only [tagCaps, if_true, Caps.find, List.find?_cons, beq_self_eq_true, hname]
+  · simp only [tagCaps, if_neg hane, Caps.find, List.find?_cons, beq_self_eq_true, hname,
+      show ((3 : Nat) == 2) = false from rfl]
 
-/-- one round of the loop: a gap `pre` in which the pattern matches nowhere, then a match `src` -/
+/-- one round of the loop: a gap `pre` in which the pattern matches nowhere, then a match `src`, then — after a
+    raw/comment tag — the bytes up to the block's end tag as one text token -/
 theorem scanLoop_step (mf : Nat) (re : Re) (d : Delims) (n : Nat) (pre src rest : Bytes) (p line : Nat) (caps : Caps)
     (hsrc : src ≠ [])
     (hnone : ∀ i, i < pre.length → re.matchAt mf ((pre ++ (src ++ rest)).drop i) (p + i) = none)
@@ -281,7 +276,13 @@ theorem scanLoop_step (mf : Nat) (re : Re) (d : Delims) (n : Nat) (pre src rest 
     scanLoop mf re d (n + 1) (pre ++ (src ++ rest)) p line =
       (if pre.isEmpty then [] else [{ ty := .text, line := line, source := pre }]) ++
       (tokensOfMatch d src (p + pre.length) caps (line + countNL pre) ++
-       scanLoop mf re d n rest (p + pre.length + src.length) (line + countNL pre + countNL src)) := by
+       ((if (rest.take (lexSkip mf d (tagNameOfMatch d src (p + pre.length) caps) rest (p + pre.length + src.length))).isEmpty then []
+         else [{ ty := .text, line := line + countNL pre + countNL src,
+                 source := rest.take (lexSkip mf d (tagNameOfMatch d src (p + pre.length) caps) rest (p + pre.length + src.length)) }]) ++
+        scanLoop mf re d n (rest.drop (lexSkip mf d (tagNameOfMatch d src (p + pre.length) caps) rest (p + pre.length + src.length)))
+          (p + pre.length + src.length + lexSkip mf d (tagNameOfMatch d src (p + pre.length) caps) rest (p + pre.length + src.length))
+          (line + countNL pre + countNL src +
+            countNL (rest.take (lexSkip mf d (tagNameOfMatch d src (p + pre.length) caps) rest (p + pre.length + src.length)))))) := by
   have hpos : 0 < src.length := List.length_pos_iff.mpr hsrc
   have hs : re.search mf (pre ++ (src ++ rest)) p 0 = some (pre.length, p + pre.length + src.length, caps) := by
     have := search_at mf re (p + pre.length + src.length) caps pre.length (pre ++ (src ++ rest)) p 0
@@ -297,6 +298,34 @@ theorem scanLoop_step (mf : Nat) (re : Re) (d : Delims) (n : Nat) (pre src rest 
     rw [← List.drop_drop, List.drop_left' rfl, List.drop_left' rfl]
   have hne : ¬ (p + pre.length + src.length ≤ p + pre.length) := by omega
   rw [e1, e2, e3, e4, if_neg hne, List.append_assoc]
+
+/-- the round when the tokenizer does not skip (not a raw/comment tag, or no end tag ahead) -/
+theorem scanLoop_step0 (mf : Nat) (re : Re) (d : Delims) (n : Nat) (pre src rest : Bytes) (p line : Nat) (caps : Caps)
+    (hsrc : src ≠ [])
+    (hnone : ∀ i, i < pre.length → re.matchAt mf ((pre ++ (src ++ rest)).drop i) (p + i) = none)
+    (hm : re.matchAt mf (src ++ rest) (p + pre.length) = some (p + pre.length + src.length, caps))
+    (h0 : lexSkip mf d (tagNameOfMatch d src (p + pre.length) caps) rest (p + pre.length + src.length) = 0) :
+    scanLoop mf re d (n + 1) (pre ++ (src ++ rest)) p line =
+      (if pre.isEmpty then [] else [{ ty := .text, line := line, source := pre }]) ++
+      (tokensOfMatch d src (p + pre.length) caps (line + countNL pre) ++
+       scanLoop mf re d n rest (p + pre.length + src.length) (line + countNL pre + countNL src)) := by
+  rw [scanLoop_step mf re d n pre src rest p line caps hsrc hnone hm, h0]
+  simp [countNL]
+
+/-- the round when the tokenizer skips the body `body ≠ []` of a raw/comment block -/
+theorem scanLoop_stepBody (mf : Nat) (re : Re) (d : Delims) (n : Nat) (pre src body rest : Bytes) (p line : Nat) (caps : Caps)
+    (hsrc : src ≠ []) (hbody : body ≠ [])
+    (hnone : ∀ i, i < pre.length → re.matchAt mf ((pre ++ (src ++ (body ++ rest))).drop i) (p + i) = none)
+    (hm : re.matchAt mf (src ++ (body ++ rest)) (p + pre.length) = some (p + pre.length + src.length, caps))
+    (h0 : lexSkip mf d (tagNameOfMatch d src (p + pre.length) caps) (body ++ rest) (p + pre.length + src.length) = body.length) :
+    scanLoop mf re d (n + 1) (pre ++ (src ++ (body ++ rest))) p line =
+      (if pre.isEmpty then [] else [{ ty := .text, line := line, source := pre }]) ++
+      (tokensOfMatch d src (p + pre.length) caps (line + countNL pre) ++
+       ({ ty := .text, line := line + countNL pre + countNL src, source := body } ::
+        scanLoop mf re d n rest (p + pre.length + src.length + body.length) (line + countNL pre + countNL src + countNL body))) := by
+  rw [scanLoop_step mf re d n pre src (body ++ rest) p line caps hsrc hnone hm, h0, List.take_left' rfl, List.drop_left' rfl]
+  have : body.isEmpty = false := by cases body with | nil => exact absurd rfl hbody | cons x xs => rfl
+  simp [this]
 
 /-! ## Items at the head of the input -/
 
@@ -315,19 +344,22 @@ theorem spell_length_tag (d : Delims) (name args : Bytes) (hl hr : Bool) (wl wm 
 theorem item_match (d : Delims) (hg : GoodDelims d) (it : Item) (hnt : it.isText = false)
     (hci : CleanItem d it) (hcc : CleanClose d it) (rest : Bytes) (p mf : Nat) (hmf : (it.spell d).length ≤ mf) :
     ∃ caps, (tokenRe d).matchAt mf (it.spell d ++ rest) p = some (p + (it.spell d).length, caps) ∧
-      (∀ line, tokensOfMatch d (it.spell d) p caps line = it.tokens d line) ∧ it.spell d ≠ [] := by
+      (∀ line, tokensOfMatch d (it.spell d) p caps line = it.tokens d line) ∧ it.spell d ≠ [] ∧
+      tagNameOfMatch d (it.spell d) p caps = it.tagName := by
   cases it with
   | text s => cases hnt
   | obj args hl hr wl wr =>
     have hl' := spell_length_obj d args hl hr wl wr
-    refine ⟨_, matchAt_obj d hg args hl hr wl wr rest hci hcc p mf (by omega), fun line => tokensOfMatch_obj d args hl hr wl wr hci p line, ?_⟩
+    refine ⟨_, matchAt_obj d hg args hl hr wl wr rest hci hcc p mf (by omega), fun line => tokensOfMatch_obj d args hl hr wl wr hci p line, ?_,
+      tagNameOfMatch_obj d args hl hr wl wr p _⟩
     intro h
     have := congrArg List.length h
     have hpos : 0 < args.length := List.length_pos_iff.mpr hci.2.2.1
     rw [hl'] at this; simp only [List.length_nil] at this; omega
   | tag name args hl hr wl wm wr =>
     have hl' := spell_length_tag d name args hl hr wl wm wr
-    refine ⟨_, matchAt_tag d hg name args hl hr wl wm wr rest hci hcc p mf (by omega), fun line => tokensOfMatch_tag d hg name args hl hr wl wm wr hci p line, ?_⟩
+    refine ⟨_, matchAt_tag d hg name args hl hr wl wm wr rest hci hcc p mf (by omega), fun line => tokensOfMatch_tag d hg name args hl hr wl wm wr hci p line, ?_,
+      tagNameOfMatch_tag d hg name args hl hr wl wm wr p⟩
     intro h
     have := congrArg List.length h
     have hpos : 0 < name.length := List.length_pos_iff.mpr hci.2.2.2.1
@@ -345,74 +377,146 @@ theorem text_no_match (d : Delims) (mf : Nat) (s x : Bytes) (p : Nat)
     · exact absurd h1 (h i hi).1
     · exact absurd h1 (h i hi).2
 
-/-- **the FindAll loop on the spelling of a clean template** -/
+/-- the statement about the loop, for one item list -/
+def LoopOk (d : Delims) (mf : Nat) (items : List Item) : Prop :=
+  ∀ (n p line : Nat), (spell d items).length < n → (spell d items).length ≤ mf →
+    scanLoop mf (tokenRe d) d n (spell d items) p line = tokensOf d items line
+
+/-- after an object or tag `it` has been matched: the lexical skip (if `it` is a raw/comment tag with its end
+    tag ahead, the body becomes one text token) and the rest of the template -/
+theorem after_item (d : Delims) (hg : GoodDelims d) (mf : Nat) (name : Option Bytes) (r : List Item)
+    (hcl : CleanFrom d (lexEndOf name) r)
+    (IH : ∀ r', r'.length ≤ r.length → Clean d r' → LoopOk d mf r')
+    (n q l : Nat) (hn : (spell d r).length < n) (hmf : (spell d r).length ≤ mf) :
+    (if ((spell d r).take (lexSkip mf d name (spell d r) q)).isEmpty then []
+      else [({ ty := .text, line := l, source := (spell d r).take (lexSkip mf d name (spell d r) q) } : Token)]) ++
+      scanLoop mf (tokenRe d) d n ((spell d r).drop (lexSkip mf d name (spell d r) q)) (q + lexSkip mf d name (spell d r) q)
+        (l + countNL ((spell d r).take (lexSkip mf d name (spell d r) q))) = tokensOf d r l := by
+  generalize ha : lexSkip mf d name (spell d r) q = a
+  have zero : a = 0 → Clean d r →
+      (if ((spell d r).take a).isEmpty then [] else [({ ty := .text, line := l, source := (spell d r).take a } : Token)]) ++
+        scanLoop mf (tokenRe d) d n ((spell d r).drop a) (q + a) (l + countNL ((spell d r).take a)) = tokensOf d r l := by
+    intro h0 hc
+    subst h0
+    simp only [List.take_zero, List.isEmpty_nil, if_true, List.nil_append, List.drop_zero, Nat.add_zero, countNL, List.count_nil]
+    exact IH r (Nat.le_refl _) hc n q l hn hmf
+  cases hle : lexEndOf name with
+  | none =>
+    rw [hle] at hcl
+    exact zero (ha ▸ lexSkip_none mf d name _ q hle) hcl
+  | some e =>
+    rw [hle] at hcl
+    cases r with
+    | nil => exact zero (ha ▸ lexSkip_noEnd mf d hg name e _ q hle (by simp [spell]) (by intro i hi; simp [spell] at hi)) trivial
+    | cons x r' =>
+      obtain ⟨hci, hcc, hctx, htail⟩ := hcl
+      cases x with
+      | text s =>
+        rcases hctx with hfe | ⟨hno, htxt⟩
+        · have ha' : a = s.length := ha ▸ lexSkip_first mf d hg name e (spell d (.text s :: r')) q s.length hle hmf hfe
+          have hs : spell d (.text s :: r') = s ++ spell d r' := rfl
+          have hsne : s ≠ [] := hci
+          have hse : s.isEmpty = false := by cases s with | nil => exact absurd rfl hsne | cons _ _ => rfl
+          rw [ha', hs, List.take_left' rfl, List.drop_left' rfl, hse]
+          have hlen : (spell d (.text s :: r')).length = s.length + (spell d r').length := by rw [hs, List.length_append]
+          have := IH r' (by simp) htail n (q + s.length) (l + countNL s) (by omega) (by omega)
+          simp only [Bool.false_eq_true, if_false, tokensOf, Item.tokens, Item.spell, List.singleton_append, this]
+        · exact zero (ha ▸ lexSkip_noEnd mf d hg name e _ q hle hmf hno) ⟨hci, hcc, htxt, htail⟩
+      | obj args hl hr wl wr =>
+        rcases hctx with hat | hno
+        · exact zero (ha ▸ lexSkip_first mf d hg name e _ q 0 hle hmf ⟨fun i hi => absurd hi (Nat.not_lt_zero i), hat⟩)
+            ⟨hci, hcc, trivial, htail⟩
+        · exact zero (ha ▸ lexSkip_noEnd mf d hg name e _ q hle hmf hno) ⟨hci, hcc, trivial, htail⟩
+      | tag nm args hl hr wl wm wr =>
+        rcases hctx with hat | hno
+        · exact zero (ha ▸ lexSkip_first mf d hg name e _ q 0 hle hmf ⟨fun i hi => absurd hi (Nat.not_lt_zero i), hat⟩)
+            ⟨hci, hcc, trivial, htail⟩
+        · exact zero (ha ▸ lexSkip_noEnd mf d hg name e _ q hle hmf hno) ⟨hci, hcc, trivial, htail⟩
+
+/-- one round: an optional gap `pre` (a clean text), a clean object or tag, the lexical skip, the rest -/
+theorem round_item (d : Delims) (hg : GoodDelims d) (mf : Nat) (pre : Bytes) (it : Item) (r : List Item)
+    (hnt : it.isText = false) (hci : CleanItem d it) (hcc : CleanClose d it) (hcl : CleanFrom d it.lexEnd r)
+    (hnone : ∀ p i, i < pre.length → (tokenRe d).matchAt mf ((pre ++ (it.spell d ++ spell d r)).drop i) (p + i) = none)
+    (IH : ∀ r', r'.length ≤ r.length → Clean d r' → LoopOk d mf r')
+    (n p line : Nat) (hn : (pre ++ (it.spell d ++ spell d r)).length < n) (hmf : (pre ++ (it.spell d ++ spell d r)).length ≤ mf) :
+    scanLoop mf (tokenRe d) d n (pre ++ (it.spell d ++ spell d r)) p line =
+      (if pre.isEmpty then [] else [{ ty := .text, line := line, source := pre }]) ++
+      (it.tokens d (line + countNL pre) ++ tokensOf d r (line + countNL pre + countNL (it.spell d))) := by
+  simp only [List.length_append] at hn hmf
+  obtain ⟨caps, hm, htok, hsne, htn⟩ := item_match d hg it hnt hci hcc (spell d r) (p + pre.length) mf (by omega)
+  have hspos := List.length_pos_iff.mpr hsne
+  cases n with
+  | zero => simp at hn
+  | succ n =>
+    rw [scanLoop_step mf (tokenRe d) d n pre (it.spell d) (spell d r) p line caps hsne (hnone p) hm, htok, htn]
+    have := after_item d hg mf it.tagName r hcl IH n (p + pre.length + (it.spell d).length)
+      (line + countNL pre + countNL (it.spell d)) (by omega) (by omega)
+    rw [this]
+
+/-- **the match loop on the spelling of a clean template** -/
 theorem scanLoop_spell (d : Delims) (hg : GoodDelims d) (mf : Nat) :
-    ∀ (items : List Item), Clean d items → ∀ (n p line : Nat), (spell d items).length < n → (spell d items).length ≤ mf →
-      scanLoop mf (tokenRe d) d n (spell d items) p line = tokensOf d items line
-  | [], _, n, p, line, hn, _ => by
+    ∀ (k : Nat) (items : List Item), items.length ≤ k → Clean d items → LoopOk d mf items := by
+  intro k
+  induction k with
+  | zero =>
+    intro items hk _ n p line hn _
+    have : items = [] := List.eq_nil_of_length_eq_zero (Nat.le_zero.mp hk)
+    subst this
     cases n with
     | zero => simp at hn
     | succ n => rfl
-  | [.text s], hc, n, p, line, _, _ => by
-    obtain ⟨hne, _, ⟨htxt, _⟩, _⟩ := hc
-    have hs : spell d [.text s] = s ++ spell d [] := rfl
-    rw [hs, scanLoop_text_only _ _ _ _ _ _ _ (search_none_of mf (tokenRe d) _ p 0 (by
-      intro i hi
-      have hi' : i < s.length := by simpa [spell] using hi
-      exact text_no_match d mf s (spell d []) p htxt i hi'))]
-    have : (s ++ spell d []).isEmpty = false := by
-      cases s with
-      | nil => exact absurd rfl hne
-      | cons x xs => rfl
-    have hne' : s ≠ [] := hne
-    simp [hne', tokensOf, Item.tokens, spell]
-  | .text s :: it :: r, hc, n, p, line, hn, hmf => by
-    obtain ⟨hne, _, ⟨htxt, hnt⟩, hci, hcc, _, hr⟩ := hc
-    have hlen : (spell d (.text s :: it :: r)).length = s.length + ((it.spell d).length + (spell d r).length) := by
-      simp [spell, Item.spell, List.length_append]
-    obtain ⟨caps, hm, htok, hsne⟩ := item_match d hg it hnt hci hcc (spell d r) (p + s.length) mf (by omega)
-    have hspos : 0 < s.length := List.length_pos_iff.mpr hne
-    cases n with
-    | zero => simp at hn
-    | succ n =>
-      have hs : spell d (.text s :: it :: r) = s ++ (it.spell d ++ spell d r) := rfl
-      rw [hs, scanLoop_step mf (tokenRe d) d n s (it.spell d) (spell d r) p line caps hsne
-        (text_no_match d mf s _ p htxt) hm, htok,
-        scanLoop_spell d hg mf r hr n _ _ (by omega) (by omega)]
-      have : s.isEmpty = false := by
-        cases s with
-        | nil => exact absurd rfl hne
-        | cons x xs => rfl
-      simp [this, tokensOf, Item.tokens, Item.spell, Nat.add_assoc]
-  | .obj args hl hr wl wr :: r, hc, n, p, line, hn, hmf => by
-    obtain ⟨hci, hcc, _, hr'⟩ := hc
-    have hlen : (spell d (.obj args hl hr wl wr :: r)).length = ((Item.obj args hl hr wl wr).spell d).length + (spell d r).length := by
-      simp [spell, List.length_append]
-    obtain ⟨caps, hm, htok, hsne⟩ := item_match d hg (.obj args hl hr wl wr) rfl hci hcc (spell d r) (p + ([] : Bytes).length) mf (by omega)
-    have hspos := List.length_pos_iff.mpr hsne
-    cases n with
-    | zero => simp at hn
-    | succ n =>
-      have hs : spell d (.obj args hl hr wl wr :: r) = [] ++ ((Item.obj args hl hr wl wr).spell d ++ spell d r) := rfl
-      rw [hs, scanLoop_step mf (tokenRe d) d n [] _ (spell d r) p line caps hsne (by intro i hi; simp at hi) hm, htok,
-        scanLoop_spell d hg mf r hr' n _ _ (by omega) (by omega)]
-      simp [tokensOf, countNL]
-  | .tag name args hl hr wl wm wr :: r, hc, n, p, line, hn, hmf => by
-    obtain ⟨hci, hcc, _, hr'⟩ := hc
-    have hlen : (spell d (.tag name args hl hr wl wm wr :: r)).length =
-        ((Item.tag name args hl hr wl wm wr).spell d).length + (spell d r).length := by
-      simp [spell, List.length_append]
-    obtain ⟨caps, hm, htok, hsne⟩ := item_match d hg (.tag name args hl hr wl wm wr) rfl hci hcc (spell d r) (p + ([] : Bytes).length) mf (by omega)
-    have hspos := List.length_pos_iff.mpr hsne
-    cases n with
-    | zero => simp at hn
-    | succ n =>
-      have hs : spell d (.tag name args hl hr wl wm wr :: r) = [] ++ ((Item.tag name args hl hr wl wm wr).spell d ++ spell d r) := rfl
-      rw [hs, scanLoop_step mf (tokenRe d) d n [] _ (spell d r) p line caps hsne (by intro i hi; simp at hi) hm, htok,
-        scanLoop_spell d hg mf r hr' n _ _ (by omega) (by omega)]
-      simp [tokensOf, countNL]
+  | succ k ih =>
+    intro items hk hc n p line hn hmf
+    cases items with
+    | nil =>
+      cases n with
+      | zero => simp at hn
+      | succ n => rfl
+    | cons x r =>
+      have hkr : r.length ≤ k := by simpa using hk
+      cases x with
+      | text s =>
+        obtain ⟨hne, _, ⟨htxt, hnt⟩, htail⟩ := hc
+        have hne' : s ≠ [] := hne
+        cases r with
+        | nil =>
+          have hs : spell d [.text s] = s ++ spell d [] := rfl
+          rw [hs, scanLoop_text_only _ _ _ _ _ _ _ (search_none_of mf (tokenRe d) _ p 0 (by
+            intro i hi
+            have hi' : i < s.length := by simpa [spell] using hi
+            exact text_no_match d mf s (spell d []) p htxt i hi'))]
+          have : (s ++ spell d []).isEmpty = false := by
+            cases s with
+            | nil => exact absurd rfl hne
+            | cons x xs => rfl
+          simp [hne', tokensOf, Item.tokens, spell]
+        | cons it r' =>
+          obtain ⟨hci, hcc, _, hcl⟩ := htail
+          have hs : spell d (.text s :: it :: r') = s ++ (it.spell d ++ spell d r') := rfl
+          rw [hs] at hn hmf ⊢
+          rw [round_item d hg mf s it r' hnt hci hcc hcl (fun p => text_no_match d mf s _ p htxt)
+            (fun r'' hr'' => ih r'' (by simp at hkr; omega)) n p line hn hmf]
+          have : s.isEmpty = false := by
+            cases s with
+            | nil => exact absurd rfl hne
+            | cons x xs => rfl
+          simp [this, tokensOf, Item.tokens, Item.spell, Nat.add_assoc]
+      | obj args hl hr wl wr =>
+        obtain ⟨hci, hcc, _, hcl⟩ := hc
+        have hs : spell d (.obj args hl hr wl wr :: r) = [] ++ ((Item.obj args hl hr wl wr).spell d ++ spell d r) := rfl
+        rw [hs] at hn hmf ⊢
+        rw [round_item d hg mf [] _ r rfl hci hcc hcl (fun p i hi => by simp at hi)
+          (fun r'' hr'' => ih r'' (by omega)) n p line hn hmf]
+        simp [tokensOf, countNL]
+      | tag name args hl hr wl wm wr =>
+        obtain ⟨hci, hcc, _, hcl⟩ := hc
+        have hs : spell d (.tag name args hl hr wl wm wr :: r) = [] ++ ((Item.tag name args hl hr wl wm wr).spell d ++ spell d r) := rfl
+        rw [hs] at hn hmf ⊢
+        rw [round_item d hg mf [] _ r rfl hci hcc hcl (fun p i hi => by simp at hi)
+          (fun r'' hr'' => ih r'' (by omega)) n p line hn hmf]
+        simp [tokensOf, countNL]
 
 /-- the tokenizer reads the spelling of a clean template back as the template's tokens -/
 theorem scanWith_spell (d : Delims) (hg : GoodDelims d) (items : List Item) (hc : Clean d items) (line : Nat) :
     scanWith (tokenRe d) d (spell d items) line = tokensOf d items line :=
-  scanLoop_spell d hg _ items hc _ 0 line (Nat.lt_succ_self _) (Nat.le_succ _)
+  scanLoop_spell d hg _ items.length items (Nat.le_refl _) hc _ 0 line (Nat.lt_succ_self _) (Nat.le_succ _)
